@@ -214,6 +214,7 @@ def run(F, rep, tier):
     rep.floor("C09-R5", "hand-written loops in the parser", n_loops, 10)
     run_r7(F, rep)
     run_r8(F, rep)
+    run_r9(F, rep)
 
 
 def run_r7(F, rep):
@@ -325,3 +326,33 @@ def run_r8(F, rep):
             n += located
             rep.ok("C09-R8", "%s:ParseError::new" % it["name"], sample={"fn": it["name"], "located_constructions": located})
     rep.floor("C09-R8", "ParseError constructions examined (struct literals and ParseError::new calls)", n, 20)
+
+
+def run_r9(F, rep):
+    """C09-R9: the report renderer counts shown and remaining errors on the same list"""
+    from lib.facts import find, walk, is_node, path_of, render
+    rep.rule("C09-R9", "format_error: the number of errors not shown is `LIST.len() - n` where n = min(LIST.len(), K) over the SAME list (a count taken from another field, e.g. the source "
+                       "text, underflows and panics for short inputs with several errors)")
+    its = [it for it in F.syn("mech_syntax.lib") if it["k"] == "method" and it["name"] == "format_error"]
+    if not rep.check(len(its) == 1, "C09-R9", "anchor:format_error", "TextFormatter::format_error not found"):
+        return
+    body = its[0]["body"]
+    shown = {}
+    for st in find(body, "let"):
+        if len(st) == 4 and st[2] is not None and st[1][0] == "pident":
+            for c in find(st[2], "call"):
+                if (path_of(c[1]) or "").endswith("min") and c[2]:
+                    lens = [render(m[1]) for a in c[2] for m in find(a, "mcall") if m[2] == "len"]
+                    if lens:
+                        shown[st[1][1]] = lens[0]
+    rep.floor("C09-R9", "shown-count definitions (n = min(list.len(), K))", len(shown), 1)
+    n = 0
+    for b in find(body, "bin"):
+        if b[1] == "-" and is_node(b[3]) and b[3][0] == "path" and b[3][1] in shown:
+            n += 1
+            lhs = [render(m[1]) for m in find(b[2], "mcall") if m[2] == "len"]
+            ok = bool(lhs) and lhs[0].replace(" ", "") == shown[b[3][1]].replace(" ", "")
+            rep.check(ok, "C09-R9", "format_error:remaining-count",
+                      "format_error computes the number of errors not shown as `%s`, but %s counts `%s`: the two lengths belong to different fields, so the subtraction underflows (panic) or reports a bogus count" % (
+                          render(b)[:50], b[3][1], shown[b[3][1]]), "TextFormatter::format_error (mech_syntax.lib)", sample={"minuend": lhs, "shown_list": shown[b[3][1]]})
+    rep.floor("C09-R9", "remaining-count subtractions", n, 1)
